@@ -12,6 +12,7 @@ import pandas as pd
 from common import Ctx, driver_json
 import core_lib as cl
 import c18 as trig
+import c05_real
 
 PROPERTY = "C05"
 LEAN_MODULES = ["Proofs.C05", "Proofs.C05.Refresh", "Proofs.C05.Hooks", "Proofs.C05.Finalize"]
@@ -28,6 +29,11 @@ RULE = ("random runs: 1..3 markets (minutely, hourly, hourly option book with 2.
         "fixed cases: minutely market + 2 h x 80-row book, 2-3 markets with a write only on a later-registered one, answers from notify(), a raise "
         "in each of the seven hooks x bar {0, 2, 3, 5} x class, self-removing / installing / earlier-removing trigger actions; a run that a hook "
         "ended is judged against a fresh run of the same strategy without the raise (calls, account history, actions: prefixes; second run: equal); "
+        "real-market stream (harness/c05_real.py, oracle only): UniLpMarket(weth/osqth) + SqueethMarket under a real Actuator with scripted calls from "
+        "before_bar/on_bar/after_bar/finalize — accepted, refused, and failing with another exception class (KeyError from a vault key / position "
+        "that does not exist), all caught by the strategy —, and UniLpMarket + DeribitOptionMarket with an option expiring inside the run, with and "
+        "without rows for the expiry hour: every returning call has its record(s), stamped with its bar, delivered once in that bar; expiry records "
+        "in the bar of the expiry; "
         "bucket = (interval class, market mix, bars class, phases with operations, second refresh seen, closed-market rejection seen, outcome, "
         "hook that raised, list changes, second run)")
 TRUSTED = ["pandas resample/loc internals are exercised, not modelled: the model's resampled index and 'first row of the bin' rule are compared with what pandas produced on every run",
@@ -956,6 +962,7 @@ def fixed_cases():
 def run(ctx: Ctx):
     cl.setup()
     real_market_resample(ctx)
+    c05_real.run_stream(ctx)        # real UniLpMarket + SqueethMarket / DeribitOptionMarket under a real Actuator (oracle only)
     n = ctx.scale(260, 6000)
     reqs = []
     for case in fixed_cases():
@@ -974,6 +981,8 @@ def replay(ctx: Ctx, case) -> bool:
     if "real_resample" in case:
         real_market_resample(sub)
         sub.violations = [v for v in sub.violations if v["replay"].get("real_resample") == case["real_resample"]]
+    elif "real" in case:
+        c05_real.check_real(sub, case)
     else:
         check_case(sub, case, None)
     for v in sub.violations:
